@@ -372,3 +372,6 @@ def run(res, tier):
         n4 = wr4(p, res)
         res.floor("WR-4", "offset kernels with a zero-filled tail", n4, 2)
         res.fn_count += n_ow + n2
+    if tier == "thorough":
+        from . import witness
+        witness.check(res, ["W1ReadOnlyViews"])
